@@ -479,6 +479,65 @@ def other_steps_prelim(rng, res):
         shutil.rmtree(root, ignore_errors=True)
 
 
+def copied_prelim_case(rng, res):
+    """(ix) A preliminary record lying under ANOTHER step's file name (copied or renamed: a typo fixed by hand, a record
+    duplicated by a backup tool), signed by the same key. Whatever stop makes of it, it acts on the step it was called
+    for: the finished link of the step the record was made for is not touched, and of the step stopped either the
+    preliminary record or its final link is on disk afterwards."""
+    KEY_FORM[0] = "signer"
+    STOP_KW.clear()
+    import in_toto.runlib as rl
+    k = rng.choice(W.pool())
+    dsse = rng.random() < 0.5
+    how = rng.choice(["copy", "copy", "rename"])
+    a, b = rng.choice([("build", "package"), ("st", "st2"), ("biuld", "build")])
+    kid = k.keyid[:8]
+    root = tempfile.mkdtemp(prefix="verif-c12c-")
+    cwd = os.getcwd()
+    try:
+        os.chdir(root)
+        open("m0", "w").write("material\n")
+        with quiet():
+            rl.in_toto_record_start(a, ["m0"], signer=k.signer, use_dsse=dsse)
+        pa, pb = ".%s.%s.link-unfinished" % (a, kid), ".%s.%s.link-unfinished" % (b, kid)
+        if how == "copy":
+            shutil.copy(pa, pb)
+            open("p0", "w").write("product of %s\n" % a)
+            with quiet():
+                rl.in_toto_record_stop(a, ["p0"], signer=k.signer)
+            finished_a = open("%s.%s.link" % (a, kid), "rb").read()
+        else:
+            os.rename(pa, pb)
+            finished_a = None
+        open("p0", "w").write("product of %s\n" % b)
+        try:
+            with quiet():
+                rl.in_toto_record_stop(b, ["p0"], signer=k.signer)
+            outcome = "ok"
+        except Exception as e:  # pylint: disable=broad-except
+            outcome = W.exc_class(e)
+        fa, fb = "%s.%s.link" % (a, kid), "%s.%s.link" % (b, kid)
+        state = {"outcome": outcome, "final_of_stopped_step": os.path.exists(fb), "prelim_of_stopped_step": os.path.exists(pb),
+                 "final_of_other_step": (open(fa, "rb").read() == finished_a) if finished_a is not None else os.path.exists(fa)}
+    finally:
+        os.chdir(cwd)
+        shutil.rmtree(root, ignore_errors=True)
+    case = {"op": "copied_prelim", "recorded_for": a, "stopped": b, "how": how, "dsse": dsse, "key": k.kind}
+    why = None
+    if how == "copy" and state["final_of_other_step"] is not True:
+        why = "stop of step %r rewrote the finished link of step %r" % (b, a)
+    elif how == "rename" and state["final_of_other_step"]:
+        why = "stop of step %r wrote a link for step %r, which was not stopped" % (b, a)
+    elif not (state["final_of_stopped_step"] or state["prelim_of_stopped_step"]):
+        why = "after stop of step %r neither its preliminary record nor its final link is on disk" % b
+    elif outcome == "ok" and not state["final_of_stopped_step"]:
+        why = "stop of step %r reported success and wrote no final link for it" % b
+    res.case(dict(case, state=state), True, why is None, sample_cap=1)
+    res.count("copied_prelim_" + how)
+    if why:
+        res.fail("oracle", case, {"why": why, "state": state})
+
+
 def stop_products_tree(rng, res):
     """(viii) The final link holds exactly the products present at stop - recorded the way the one-phase command records
     them: a product directory that contains a link to another directory (dist/vendor -> ../vendor-1.2), nested
@@ -793,6 +852,8 @@ def shard(seed, idx, n, tier):
         other_steps_prelim(rng, res)
     for _ in range(n):
         stop_products_tree(rng, res)
+    for _ in range(max(1, n)):
+        copied_prelim_case(rng, res)
     from harness import cliequiv
     for _ in range(max(2, n)):
         cliequiv.equiv_case(rng, res, "record")       # in-toto-record start / stop vs the library calls they stand for
